@@ -92,7 +92,10 @@ pub(crate) fn crop_source_window(
         text.len()
     };
 
-    let window_text = &text[window_start..window_end];
+    // The stored region uses LF wherever the input had a lone CR, so that everything rendering
+    // it later (which splits at LF only) sees the same lines the parser counted.
+    let window_text = lone_cr_to_lf(&text[window_start..window_end]);
+    let window_text = window_text.as_ref();
 
     // Storage-time horizontal cropping to avoid retaining huge single-line scalars.
     //
@@ -896,14 +899,30 @@ fn line_starts(source: &str) -> Vec<usize> {
         return Vec::new();
     }
 
+    // YAML ends a line at LF, CRLF or a lone CR; reported line numbers count all three.
+    let bytes = source.as_bytes();
     let mut starts = vec![0usize];
-    for (i, b) in source.as_bytes().iter().enumerate() {
-        if *b == b'\n' {
-            // Safe UTF-8 boundary: '\n' is ASCII (1 byte).
+    for (i, b) in bytes.iter().enumerate() {
+        if *b == b'\n' || (*b == b'\r' && bytes.get(i + 1) != Some(&b'\n')) {
+            // Safe UTF-8 boundary: '\n' and '\r' are ASCII (1 byte).
             starts.push(i + 1);
         }
     }
     starts
+}
+
+/// Replace every lone CR (one not followed by LF) with LF. Byte length is preserved.
+fn lone_cr_to_lf(text: &str) -> std::borrow::Cow<'_, str> {
+    let bytes = text.as_bytes();
+    let is_lone_cr = |i: usize| bytes[i] == b'\r' && bytes.get(i + 1) != Some(&b'\n');
+    if !(0..bytes.len()).any(is_lone_cr) {
+        return std::borrow::Cow::Borrowed(text);
+    }
+    let mut out = String::with_capacity(text.len());
+    for (i, ch) in text.char_indices() {
+        out.push(if ch == '\r' && is_lone_cr(i) { '\n' } else { ch });
+    }
+    std::borrow::Cow::Owned(out)
 }
 
 /// Convert a 1-based (row, col) to a byte offset within `source`, given precomputed line starts.
